@@ -185,6 +185,20 @@ def wide_family(tier):
     return out
 
 
+# operations that do NOT create anything but that the KMIP specification lets set the ID placeholder
+# (Locate with exactly one match) or that merely name an object: followed by every reader
+NAMERS = {
+    'locate_one': lambda u: W.p_locate([W.attr(AT.NAME, 'one')]),
+    'locate_w0': lambda u: W.p_locate([W.attr(AT.NAME, 'w0')]),
+    'locate_none': lambda u: W.p_locate([W.attr(AT.NAME, 'no-such-name')]),
+    'locate_all': lambda u: W.p_locate(),
+    'get_1': lambda u: W.p_get('1'),
+    'get_attributes_5': lambda u: W.p_get_attributes('5'),
+}
+for _k, _f in NAMERS.items():
+    ITEMS[_k] = (_f, False, False)
+
+
 SETTERS = ['create_named', 'create_key_pair', 'register_sym', 'derive_key']
 READERS_1X = ['get_ph', 'get_attributes_ph', 'get_attribute_list_ph', 'activate_ph', 'revoke_ph',
               'destroy_ph', 'modify_ph', 'delete_attribute_ph', 'encrypt_ph', 'decrypt_ph', 'mac_ph',
@@ -210,6 +224,9 @@ def placeholder_family():
                 for s2 in SETTERS:
                     if s2 != s:
                         out.append(((s2, s, r), version))
+        for nm in NAMERS:
+            for r in readers:
+                out.append(((nm, r), version))
     return out
 QUICK_ITEMS = ['create', 'register_secret', 'get_ph', 'destroy_ph', 'modify_ph', 'activate_1', 'revoke_1',
                'destroy_1', 'get_missing', 'get_denied', 'register_conflict', 'register_dup_names',
@@ -511,7 +528,7 @@ def run(tier, seed):
     if wide_ok < 20 or wide_fail < 10:
         rep.harness_error("vacuous: wide family has %d succeeding and %d failing (item, version) "
                           "classes" % (wide_ok, wide_fail))
-    if rep.counters.get('family_last_ok', 0) < len(fam) // 3:
+    if rep.counters.get('family_last_ok', 0) < len(fam) // 4:
         rep.harness_error("vacuous: the placeholder reached a succeeding reader in only %s of %d "
                           "family batches" % (rep.counters.get('family_last_ok'), len(fam)))
     if len(sigs) < 12:
